@@ -101,6 +101,11 @@ def models(world, ev, cname, tag="", st0=None):
     kw, syms = ctor_args(cls, params, tag)
     outs = ev.run(cls, [], kw, st)
     r = rets(outs)
+    if not r and outs and all(o.kind == "raise" for o in outs):
+        from .loader import Decided
+        raise Decided("LIFECYCLE", cname + "()", "%s(password, ...) raises on every path (%s): no instance can be created"
+                      % (cname, "; ".join(sorted({"%s at %s:%s" % (o.exc, (o.site or ("?", 0))[0], (o.site or ("?", 0))[1]) for o in outs})[:4])),
+                      next((o.site for o in outs if o.site), None), applies=("C01", "C03", "C04"))
     if not r:
         raise AnalysisError("%s(...) has no normal construction path" % cname)
     if len(r) > 8:
@@ -127,6 +132,13 @@ def _model(world, ev, cname, tag, cls, params, syms, outs, r0):
     cm.finish_unstarted = ev.run_method(cm.obj, "finish", [cm.msg], st=cm.st_new.fork())
     cm.serialize_unstarted = ev.run_method(cm.obj, "serialize", [], st=cm.st_new.fork())
     cm.started = rets(cm.start)
+    if cm.start and not cm.started and all(o.kind == "raise" for o in cm.start):
+        from .loader import Decided
+        raise Decided("LIFECYCLE", cname + ".start", "%s.start() of a fresh instance raises on every path (%s): no message is ever produced"
+                      % (cname, "; ".join(sorted({"%s at %s:%s" % (o.exc, (o.site or ("?", 0))[0], (o.site or ("?", 0))[1]) for o in cm.start})[:4])),
+                      next((o.site for o in cm.start if o.site), None),
+                      # the properties that promise a result of start() (the others hold vacuously or cannot be examined)
+                      applies=("C01", "C03", "C04"))
     cm.start_again = []
     cm.finish = []
     cm.serialize = []
